@@ -193,6 +193,8 @@ def classify(schema, X, what):
     if what.startswith("crash"):
         if "trynext.cc" in what and "null pointer" in what:
             return "crash:trynext-firstCandidate-null"
+        if "entnode.cc" in what and "null pointer" in what:
+            return SORT_KEY
         return None
     if what == "refuses-legal" and len(X) == 1:
         return "single-part-refused"
@@ -467,6 +469,61 @@ def end_to_end(ctx, b, schema, label, nsets):
     return e2e_file(ctx, b, exe, d, schema, orders)
 
 
+# ---------------------------------------------------------------- EntNode::sort after renaming (Initialize's name path)
+SORT_KEY = "crash:entnode-sort-equal-names"
+
+
+def sort_stream(ctx, real, nrandom):
+    """EntNode::sort on request lists in which some nodes were renamed (USE/REFERENCE ... AS aliases resolved to the original
+    names): real code vs `sortNodes`; oracle: no crash, result = the names in ascending order."""
+    import itertools
+    from vlib import findings as F
+    rc, out, _ = run_model(ctx, ["consts"])
+    nonstrict = bool(out) and "sortns=1" in out[0]
+    with_equal = nonstrict or bool(F.lookup("C08", SORT_KEY))
+    letters = "abcdefghijklmnop"
+    cases = []
+    for n in (2, 3, 4):
+        base = ["b", "d", "f", "h"][:n]
+        for tgt in itertools.product("abc", repeat=n):
+            cases.append((base, list(enumerate(tgt))))
+    for _ in range(nrandom):
+        n = ctx.rng.randint(1, 8)
+        base = sorted(ctx.rng.sample(letters[::2], n))
+        k = ctx.rng.randint(1, n)
+        cases.append((base, [(i, ctx.rng.choice(letters[:10])) for i in ctx.rng.sample(range(n), k)]))
+    lines, mlines, exps = [], [], []
+    for base, ren in cases:
+        exp = list(base)
+        for i, nw in ren:
+            exp[i] = nw
+        if len(set(exp)) != len(exp) and not with_equal:
+            continue
+        lines.append("rs " + " ".join(f"{i}={nw}" for i, nw in ren) + " | " + " ".join(base))
+        mlines.append("rs " + " ".join(str(ord(c) - 97) for c in exp))
+        exps.append(exp)
+    k0 = next(iter(real.index))
+    _, rep = real.run(k0, lines)
+    rc, mout, merr = run_model(ctx, mlines)
+    problems = []
+    if rc != 0 or len(mout) != len(mlines):
+        return [("machinery", k0, {"what": f"model driver (sort stream) rc={rc} lines={len(mout)}/{len(mlines)}"})]
+    for exp, line, r, m in zip(exps, lines, rep, mout):
+        ctx.count(1, key=("sort", line))
+        equal = len(set(exp)) != len(exp)
+        ctx.hist("sort-after-renaming", "equal names" if equal else "distinct names")
+        rr = "CRASH" if r.startswith("CRASH") else " ".join(r.split()[1:])
+        mm = "CRASH" if m.startswith("R crash") else " ".join(chr(97 + int(x)) for x in m.split()[1:])
+        good = rr == " ".join(sorted(exp))
+        d = {"X": exp, "order": exp, "reply": r[:600], "model": m, "legal": None, "tree": None, "sort": line}
+        if rr != mm:
+            problems.append(("mismatch", k0, dict(d, what=None if good else ("crash " + r[:300] if rr == "CRASH" else "not-sorted"),
+                                                  detail=f"EntNode::sort on {exp}: real {rr!r}, model {mm!r}")))
+        elif not good:
+            problems.append(("property", k0, dict(d, what=("crash " + r[:300]) if rr == "CRASH" else f"EntNode::sort leaves {rr!r} for {exp}")))
+    return problems
+
+
 # ---------------------------------------------------------------- reporting
 def report(ctx, problems, schemas, labels):
     nviol = 0
@@ -606,6 +663,10 @@ def run(ctx):
     problems, real = evaluate(ctx, b, schemas, labels, norders, "main")
     ctx.cov["correspondence"]["all-subsets"] = {"schemas": len(schemas), "orders_per_subset": norders,
                                                 "problems": len(problems), "wall_s": round(time.time() - t, 1)}
+    # EntNode::sort after renaming
+    t = time.time()
+    problems += sort_stream(ctx, real, 600 if quick else 6000)
+    ctx.cov["correspondence"]["sort-after-renaming"] = {"wall_s": round(time.time() - t, 1)}
     # end to end on a sample
     t = time.time()
     ne2e = 2 if quick else 12
